@@ -144,6 +144,12 @@ def run(chk):
     for i in range(n // 5):
         doc = gen.sawtooth_family(rng)
         pool.append(("sawtooth:%d" % i, doc, demes.Graph.fromdict(doc)))
+    for i in range(n // 10):
+        doc = gen.merge_family(rng)
+        try:
+            pool.append(("merge:%d" % i, doc, demes.Graph.fromdict(doc)))
+        except Exception:
+            chk.count("family_rejected")
     from props.c07 import expressible
     for label, doc, g in pool:
         if not expressible(g):
